@@ -236,16 +236,7 @@ func verifInotifyRead(f *os.File, b []byte) (int, error) {
 				if len(b) < n {
 					return 0, unix.EINVAL
 				}
-				ev := (*unix.InotifyEvent)(unsafe.Pointer(&b[0]))
-				ev.Wd, ev.Mask, ev.Cookie, ev.Len = int32(r.wd), r.mask, r.cookie, r.ln
-				for i := 0; i < int(r.ln); i++ {
-					if i < len(r.name) {
-						b[unix.SizeofInotifyEvent+i] = r.name[i]
-					} else {
-						b[unix.SizeofInotifyEvent+i] = 0
-					}
-				}
-				return n, nil
+				return verifPutRecord(b, 0, r.wd, r.mask, r.cookie, r.name), nil
 			case <-k.closedCh:
 				return 0, os.ErrClosed
 			}
@@ -255,6 +246,25 @@ func verifInotifyRead(f *os.File, b []byte) (int, error) {
 		<-k.closedCh // the poller releases a pending read when the file is closed
 	}
 	return 0, os.ErrClosed
+}
+
+// verifPutRecord writes one inotify record (header, name, NUL padding to a
+// multiple of 16) at b[off:] and returns its length.
+func verifPutRecord(b []byte, off int, wd, mask, cookie uint32, name string) int {
+	ln := 0
+	if name != "" {
+		ln = (len(name)/16 + 1) * 16
+	}
+	ev := (*unix.InotifyEvent)(unsafe.Pointer(&b[off]))
+	ev.Wd, ev.Mask, ev.Cookie, ev.Len = int32(wd), mask, cookie, uint32(ln)
+	for i := 0; i < ln; i++ {
+		if i < len(name) {
+			b[off+unix.SizeofInotifyEvent+i] = name[i]
+		} else {
+			b[off+unix.SizeofInotifyEvent+i] = 0
+		}
+	}
+	return unix.SizeofInotifyEvent + ln
 }
 
 // verifFeed hands one kernel record to the Watcher the way the kernel does: the
